@@ -22,6 +22,7 @@ package plugin
 
 import (
 	"fmt"
+	"path/filepath"
 	"strings"
 	"sync"
 
@@ -96,6 +97,10 @@ func (msg MultiServiceGenerator) Generate(req *api.GenerateServiceRequest) (*api
 
 		pluginName := sg.Handle().Name()
 		for path, contents := range res.Files {
+			// Different spellings of the same path ("a/b.go",
+			// "./a//b.go", "/a/b.go") refer to the same file under
+			// the output directory.
+			path = strings.TrimLeft(filepath.Clean(path), string(filepath.Separator))
 			if takenBy, taken := usedPaths[path]; taken {
 				return fmt.Errorf("plugin conflict: cannot write file %q for plugin %q: "+
 					"plugin %q already wrote to that file", path, pluginName, takenBy)
